@@ -27,6 +27,8 @@ def _apply(name, model, rnd):
     if name == "permute_variables":
         m2, back, _ = rewrites.permute_variables(model, rnd)
         return m2, back
+    if name == "permute_arguments":
+        return rewrites.permute_arguments(model, rnd)
     if name == "duplicate_constraint":
         return rewrites.duplicate_constraint(model, rnd)
     if name == "add_true_constraint":
@@ -36,7 +38,8 @@ def _apply(name, model, rnd):
     raise ValueError(name)
 
 
-REWRITES = ["dealias", "permute_constraints", "permute_variables", "duplicate_constraint", "add_true_constraint"]
+REWRITES = ["dealias", "permute_constraints", "permute_variables", "duplicate_constraint", "add_true_constraint",
+            "permute_arguments"]
 
 
 def _cfg_for(name, cfg, model2, back_inv=None):
@@ -71,7 +74,7 @@ def run_meta(task):
         if time.time() > deadline:
             res["truncated"] = True
             break
-        ti = rnd.random() < 0.25
+        ti = rnd.random() < 0.25 and not task.get("no_translate")
         g = dict(task.get("gen") or {})
         g.setdefault("gcc_zero_cap", False)
         g.setdefault("circuit", 0.1)
